@@ -733,6 +733,21 @@ def run(ctx):
     ctx.note("conversion steps decided: %d, cells evaluated: %d" % (nprim, cells))
     check_chains(ctx, prog)
     check_switches(ctx)
+    # "all other elements of the same call are still transferred": NC_ERANGE must not change what the callers do next
+    from rules import r10erange
+    ctx.rule("R10.erange", "after a pack / post that reports NC_ERANGE every caller goes on exactly as after NC_NOERR "
+             "(the sets of possible next calls / exits are equal)")
+    lprog = ctx.program(groups=["lib"])
+    er = None
+    for u in lprog.units.values():
+        if "NC_ERANGE" in u.macros:
+            try:
+                er = int(u.macros["NC_ERANGE"].strip("() "), 0)
+            except ValueError:
+                continue
+            break
+    ctx.require(er is not None and er < 0, "NC_ERANGE not found")
+    r10erange.check(ctx, lprog, "R10.erange", er, min_sites=200)
 
 
 def check_loop_shape(ctx, fn, head, name, inline=False):
